@@ -1,7 +1,7 @@
 #!/usr/bin/env python3
 """C30: turn TLC's state graph of tla/Assoc.tla into an automaton over observable events.
 
-  graph2nfa.py build  <Assoc.dot> <out.json> [--conf TRUE|FALSE] [--log <tlc stdout>]
+  graph2nfa.py build  <Assoc.dot> <out.json> [--conf TRUE|FALSE] [--log <tlc stdout>] [--also TRUE|FALSE <out2.json>]
                                                                     write graph + NFA as JSON for the part of the
                                                                     graph reachable from the initial state with that
                                                                     mode (default FALSE = general mode)
@@ -14,7 +14,7 @@ The dot file is produced by   tlc -dump dot,actionlabels <file> ...  ; every edg
 sub-action that produced it, with its arguments: SendData("R"), Recv("A","RRQ"), ...
 An action stands for a fixed list of observable events (table EVENTS; the vocabulary of DESIGN.md C30):
 
-  put(s,k)      a complete PDU of kind k was written by s            k in DATA RRQ RRP ABORT
+  put(s,k)      a complete PDU of kind k was written by s            k in DATA RRQ RRP ABORT UNK
   take(s,k)     an API call of s was handed PDU k (receive, or the receive inside release)
   ret(s,op,c)   API call op of s returned with class c               op in send receive release abort
   close(s)      s's end of the connection was closed (close(), shutdown() or drop)
@@ -35,10 +35,11 @@ import sys
 def events(action, s, k):
     E = {
         "SendData": [f"put({s},DATA)", f"ret({s},send,Ok)"],
+        "SendUnk": [f"put({s},UNK)", f"ret({s},send,Ok)"],
         "Recv": [f"take({s},{k})", f"ret({s},receive,Ok)"] + ([f"close({s})"] if k == "ABORT" else []),
         "RecvEof": [f"eof({s})", f"ret({s},receive,Closed)", f"close({s})"],
         "ReleaseReq": [f"put({s},RRQ)"],
-        "Wait": [f"close({s})", f"take({s},{k})", f"ret({s},release,{'Ok' if k == 'RRP' else 'Unexpected'})"],
+        "Wait": [f"close({s})", f"take({s},{k})", f"ret({s},release,{'Ok' if k == 'RRP' else 'Unknown' if k == 'UNK' else 'Unexpected'})"],
         "WaitEof": [f"eof({s})", f"close({s})", f"ret({s},release,Closed)"],
         "Rsp": [f"put({s},RRP)", f"ret({s},send,Ok)", f"close({s})"],
         "Abort": [f"put({s},ABORT)", f"close({s})", f"ret({s},abort,Ok)"],
@@ -58,7 +59,7 @@ def parse_label(lab):
     m = re.match(r'^(\w+)\("([RA])"(?:,\s*"(\w+)")?\)$', lab)
     if m:
         return m.group(1), m.group(2), m.group(3) or ""
-    m = re.match(r'^([RA])_(\w+?)(?:_(DATA|RRQ|RRP|ABORT|EOF))?$', lab)
+    m = re.match(r'^([RA])_(\w+?)(?:_(DATA|RRQ|RRP|ABORT|UNK|EOF))?$', lab)
     if m:
         s, a, k = m.group(1), m.group(2), m.group(3) or ""
         a = WRAP.get(a, a)
@@ -78,21 +79,47 @@ def parse_state(txt):
     return {"R": st.group(1), "A": st.group(2)}, {"R": op.group(1) == "TRUE", "A": op.group(2) == "TRUE"}, txt
 
 
-def build(dot, out, log=None, conf="FALSE"):
-    nodes, init, edges = {}, None, []
+def read_dot(dot):
+    """(nodes: id -> printed state, filled: ids of initial states, edges)"""
+    nodes, filled, edges = {}, [], []
     with open(dot) as f:
         for line in f:
-            m = EDGE.match(line)
-            if m:
+            sp = line.find(' ')
+            if sp <= 0 or not (line[0] == '-' or line[0].isdigit()):
+                continue
+            if line.startswith('-> ', sp + 1):
+                m = EDGE.match(line)
+                if not m:
+                    raise SystemExit(f"graph2nfa: cannot read edge line {line[:120]!r}")
                 edges.append((m.group(1), m.group(2), parse_label(m.group(3))))
                 continue
-            m = NODE.match(line)
-            if m and m.group(1) not in nodes:
-                nodes[m.group(1)] = parse_state(m.group(2))
-                if m.group(3) and f"conf = {conf}" in nodes[m.group(1)][2]:
-                    if init is not None and init != m.group(1):
-                        raise SystemExit("graph2nfa: more than one initial state")
-                    init = m.group(1)
+            nid = line[:sp]
+            if nid in nodes:
+                continue
+            a = line.find('[label="', sp)
+            if a < 0:
+                continue
+            a += 8
+            b = line.find('",tooltip=', a)
+            if b < 0:
+                b = line.find('",style = filled]', a)
+                if b >= 0:
+                    filled.append(nid)
+            if b < 0:
+                b = line.rfind('"]')
+            nodes[nid] = line[a:b]
+    return nodes, filled, edges
+
+
+def build(dot, out, log=None, conf="FALSE", parsed=None):
+    raw, filled, edges = parsed if parsed else read_dot(dot)
+    init = None
+    for nid in filled:
+        if f"conf = {conf}" in raw[nid]:
+            if init is not None and init != nid:
+                raise SystemExit("graph2nfa: more than one initial state")
+            init = nid
+    nodes = {}
     if init is None:
         raise SystemExit("graph2nfa: no initial state in the dump")
     # stable renumbering: breadth first from the initial state, successors ordered by label
@@ -109,6 +136,8 @@ def build(dot, out, log=None, conf="FALSE"):
                 num[b] = len(order)
                 order.append(b)
         i += 1
+    for o in order:
+        nodes[o] = parse_state(raw[o])
     if any(f"conf = {conf}" not in nodes[o][2] for o in order):
         raise SystemExit("graph2nfa: the mode changed along a path")
     graph = sorted({(num[a], num[b], lab[0], lab[1], lab[2]) for (a, b, lab) in edges if a in num})
@@ -187,7 +216,11 @@ def main(a):
     if len(a) >= 3 and a[0] == "build":
         log = a[a.index("--log") + 1] if "--log" in a else None
         conf = a[a.index("--conf") + 1] if "--conf" in a else "FALSE"
-        build(a[1], a[2], log, conf)
+        parsed = read_dot(a[1])
+        build(a[1], a[2], log, conf, parsed)
+        if "--also" in a:  # --also <conf> <out>: second mode from the same parse
+            k = a.index("--also")
+            build(a[1], a[k + 2], log, a[k + 1], parsed)
     elif len(a) >= 2 and a[0] == "accept":
         doc = json.load(open(a[1]))
         rest = [x for x in a[2:] if x != "--complete"]
